@@ -363,3 +363,86 @@ def spec_rows(ctx, R, qname, rows):
             ctx.fail(R, fi.qname, what, "%s: %s" % (row.get("msg") or what, why), fi.loc())
         else:
             ctx.ok(R, "%s: %s" % (fi.short, what), fi.loc(), sample={"operands": keys, "assignments": n})
+
+
+def role_effects(ctx, fi, env):
+    """What one function does for one assignment of the operands its tests read (typically
+    {"self.client": True/False}): walks the CFG with condeval.outcomes in symbolic mode and returns
+    {"assign": {target chain: symbolic value of the LAST assignment on the decided path},
+     "calls": [(callee name, [symbolic args], [target texts])], "returns": [symbolic values],
+     "undecided": tests explored both ways}.  Locals are followed through their assignments, so
+    `w = clientState; self._pendingWriteState = w` and the direct form give the same answer."""
+    from ..condeval import outcomes, ev, Unknown, Sym
+    g = ctx.an.cfg(fi)
+    cache = {}
+
+    def ao(t):
+        if t.id not in cache:
+            cache[t.id] = dead_edge_labels(g, t, [g.exit])
+        return cache[t.id]
+    res = {"assign": {}, "calls": [], "returns": [], "order": []}
+
+    def sym(e, ve):
+        try:
+            return ev(e, ve)
+        except (Unknown, TypeError, AttributeError, KeyError, IndexError):
+            if isinstance(e, ast.Tuple):
+                return tuple(sym(x, ve) for x in e.elts)
+            return Sym(norm(e))
+
+    def visit(n, ve, taint):
+        a = n.ast
+        if isinstance(a, ast.Return):
+            res["returns"].append(sym(a.value, ve) if a.value is not None else None)
+            return
+        if isinstance(a, (ast.Assign, ast.Expr)) and isinstance(a.value, ast.Call):
+            c = a.value
+            res["calls"].append((call_name(c), [sym(x, ve) for x in c.args],
+                                 [norm(t) for t in a.targets] if isinstance(a, ast.Assign) else []))
+        if isinstance(a, ast.Assign):
+            for t in a.targets:
+                ch = attr_chain(t)
+                if ch and "." in ch:
+                    res["assign"][ch] = sym(a.value, ve)
+                    res["order"].append(ch)
+    e = dict(env)
+    e["__sym__"] = True
+    out, both = outcomes(g, fi.node, e, ao, visit=visit, track_all=True)
+    res["undecided"] = both
+    return res
+
+
+def effective_labels(g, t, sinks):
+    """labels L of test `t` after which no sink is reachable - directly (the edge leads only to an
+    abort) or through a boolean flag: `ok = False` on that edge and a later `if not ok: raise` (the
+    infeasible edges of tests of flags that only ever hold constants are cut along the way)."""
+    from ..query import flag_cuts_from, assigns
+    flags = set()
+    for n in g.nodes:
+        if n.kind == "stmt" and isinstance(n.ast, ast.Assign) and len(n.ast.targets) == 1 \
+                and isinstance(n.ast.targets[0], ast.Name) and isinstance(n.ast.value, ast.Constant) \
+                and isinstance(n.ast.value.value, bool):
+            flags.add(n.ast.targets[0].id)
+    out = []
+    for lab in ("T", "F"):
+        starts = g.succ_on(t, lab)
+        if not starts:
+            continue
+        cut = set()
+        for f in flags:
+            # knowledge established on this edge: the first statement(s) set the flag
+            setters = []
+            for s0 in starts:
+                cur = s0
+                while cur is not None and cur.kind == "stmt":
+                    if assigns(cur, f):
+                        setters.append(cur)
+                        break
+                    nx = g.normal_succ(cur)
+                    cur = nx[0] if len(nx) == 1 and nx[0].kind == "stmt" else None
+            if setters:
+                cut |= flag_cuts_from(g, setters, f)
+        seen = g.reach(starts, cut=cut)
+        if not any(k.id in seen for k in sinks):
+            out.append(lab)
+    return out
